@@ -369,6 +369,7 @@ def _expand(caller: FuncDef, st: ast.stmt, call: ast.Call, fd: FuncDef, serial: 
         asg = ast.Assign(targets=[tgt], value=copy.deepcopy(e), type_comment=None)
         ast.copy_location(asg, call)
         ast.fix_missing_locations(asg)
+        asg._inline_bind = True  # type: ignore[attr-defined]
         pre.append(asg)
     rw = _ReturnRewriter(st, call)
     new_body: List[ast.stmt] = []
@@ -747,6 +748,90 @@ def _deco_kind(fd: FuncDef) -> Optional[str]:
     if len(fd.decorator_list) == 1 and isinstance(fd.decorator_list[0], ast.Name) and fd.decorator_list[0].id in ("classmethod", "staticmethod"):
         return fd.decorator_list[0].id
     return None
+
+
+def collect_generators(tree: ast.Module, known: Set[str]) -> List[str]:
+    """A private module-level generator that the reference tree does not have and that is only ever consumed whole - `OrderedDict(_pairs(..))`, `list(..)`, `dict(..)`,
+    `tuple(..)` as the value of a statement - is the function that appends to a list and returns it: `yield E` becomes `<items>.append(E)`, and the consumer is fed the
+    list through a local of its own, so that the call stands at statement level (and can be expanded like any other new helper)."""
+    log: List[str] = []
+    COLLECT = {"OrderedDict", "dict", "list", "tuple", "sorted", "set", "frozenset"}
+    gens: Dict[str, FuncDef] = {}
+    for st in tree.body:
+        if isinstance(st, ast.FunctionDef) and st.name.startswith("_") and st.name not in known and not st.decorator_list:
+            ys = [n for n in _own_walk(st) if isinstance(n, (ast.Yield, ast.YieldFrom, ast.Await))]
+            if ys and all(isinstance(n, ast.Yield) and n.value is not None for n in ys):
+                gens[st.name] = st
+    if not gens:
+        return log
+    parents: Dict[int, ast.AST] = {}
+    for p in ast.walk(tree):
+        for c in ast.iter_child_nodes(p):
+            parents[id(c)] = p
+    for name, fd in gens.items():
+        refs = [n for n in ast.walk(tree) if isinstance(n, ast.Name) and n.id == name and isinstance(n.ctx, ast.Load)]
+        sites = []
+        ok = bool(refs)
+        for r in refs:
+            call = parents.get(id(r))
+            outer = parents.get(id(call)) if isinstance(call, ast.Call) and call.func is r else None
+            stmt = parents.get(id(outer)) if isinstance(outer, ast.Call) else None
+            if not (isinstance(outer, ast.Call) and len(outer.args) == 1 and outer.args[0] is call and not outer.keywords and isinstance(outer.func, (ast.Name, ast.Attribute))
+                    and (outer.func.id if isinstance(outer.func, ast.Name) else outer.func.attr) in COLLECT
+                    and isinstance(stmt, (ast.Assign, ast.AnnAssign, ast.Return)) and stmt.value is outer):
+                ok = False
+                break
+            sites.append((stmt, outer, call))
+        # every yield is a statement of its own
+        ys = [n for n in _own_walk(fd) if isinstance(n, ast.Yield)]
+        if not ok or not all(isinstance(parents.get(id(y)), ast.Expr) for y in ys):
+            continue
+        if any(isinstance(n, ast.Return) and n.value is not None for n in _own_walk(fd)):
+            continue
+        acc = f"items__{name.strip('_')}"
+
+        class Y(ast.NodeTransformer):
+            def visit_Expr(self, node: ast.Expr) -> ast.AST:
+                if isinstance(node.value, ast.Yield):
+                    c = ast.Expr(value=ast.Call(func=ast.Attribute(value=ast.Name(id=acc, ctx=ast.Load()), attr="append", ctx=ast.Load()), args=[node.value.value], keywords=[]))
+                    return ast.fix_missing_locations(ast.copy_location(c, node))
+                return node
+
+            def visit_Return(self, node: ast.Return) -> ast.AST:
+                return ast.fix_missing_locations(ast.copy_location(ast.Return(value=ast.Name(id=acc, ctx=ast.Load())), node))
+
+            def visit_FunctionDef(self, node):  # type: ignore
+                if node is fd:
+                    self.generic_visit(node)
+                return node
+
+            def visit_Lambda(self, node):  # type: ignore
+                return node
+        Y().visit(fd)
+        init = ast.Assign(targets=[ast.Name(id=acc, ctx=ast.Store())], value=ast.List(elts=[], ctx=ast.Load()), type_comment=None)
+        ast.copy_location(init, fd.body[0])
+        k0 = 1 if (isinstance(fd.body[0], ast.Expr) and isinstance(fd.body[0].value, ast.Constant) and isinstance(fd.body[0].value.value, str)) else 0
+        fd.body.insert(k0, init)
+        tail = ast.Return(value=ast.Name(id=acc, ctx=ast.Load()))
+        ast.copy_location(tail, fd.body[-1])
+        fd.body.append(tail)
+        fd.returns = None
+        ast.fix_missing_locations(fd)
+        # the consumer reads a local that the call fills
+        for k, (stmt, outer, call) in enumerate(sites):
+            tmp = f"collected__{name.strip('_')}{k if k else ''}"
+            pre = ast.Assign(targets=[ast.Name(id=tmp, ctx=ast.Store())], value=call, type_comment=None)
+            ast.copy_location(pre, stmt)
+            outer.args[0] = ast.copy_location(ast.Name(id=tmp, ctx=ast.Load()), call)
+            ast.fix_missing_locations(pre)
+            holder = parents.get(id(stmt))
+            for fld in ("body", "orelse", "finalbody"):
+                b = getattr(holder, fld, None)
+                if isinstance(b, list) and any(x is stmt for x in b):
+                    i = [j for j, x in enumerate(b) if x is stmt][0]
+                    b.insert(i, pre)
+        log.append(f"generator {name} read as the function that returns the list of what it yields ({len(sites)} consumer(s))")
+    return log
 
 
 def normalise_new(tree: ast.Module, known: Set[str], protected: Set[str], known_shapes: Set[str] = frozenset()) -> List[str]:  # type: ignore
@@ -1164,6 +1249,57 @@ def _attr_aliases(fd: FuncDef, frozen_attrs: Set[str], log: List[str]) -> None:
     log.append(f"{fd.name}: " + ", ".join(f"`{x}` is `self.{a.value.attr}`" for x, a in sorted(cands.items())))  # type: ignore
 
 
+def _bind_aliases(fd: FuncDef, log: List[str]) -> None:
+    """`call_kwargs = kwargs` written by the expansion of a helper (parameter := argument) where neither name is assigned again in the function: the parameter of the
+    helper IS the caller's variable - the expanded body reads it under the caller's name."""
+    stores: Dict[str, int] = {}
+    for n in ast.walk(fd):
+        if isinstance(n, ast.Name) and isinstance(n.ctx, (ast.Store, ast.Del)):
+            stores[n.id] = stores.get(n.id, 0) + 1
+        elif isinstance(n, ast.arg):
+            stores[n.arg] = stores.get(n.arg, 0) + 1
+        elif isinstance(n, (ast.Global, ast.Nonlocal)):
+            for nm in n.names:
+                stores[nm] = stores.get(nm, 0) + 2
+    mapping: Dict[str, ast.AST] = {}
+    drop: List[ast.AST] = []
+    for n in ast.walk(fd):
+        if isinstance(n, ast.Assign) and getattr(n, "_inline_bind", False) and isinstance(n.value, ast.Name) and isinstance(n.targets[0], ast.Name):
+            x, y = n.targets[0].id, n.value.id
+            if stores.get(x, 0) == 1 and stores.get(y, 0) <= 1 and x != y and y not in mapping and x not in mapping:
+                mapping[x] = ast.Name(id=y, ctx=ast.Load())
+                drop.append(n)
+    if not mapping:
+        return
+    # chains: a := b, b := c
+    for k_ in list(mapping):
+        v = mapping[k_]
+        hops = 0
+        while isinstance(v, ast.Name) and v.id in mapping and hops < 5:
+            v = mapping[v.id]
+            hops += 1
+        mapping[k_] = v
+    sub = _Subst(mapping)
+
+    class Deep(ast.NodeTransformer):
+        def visit_Name(self, node: ast.Name) -> ast.AST:
+            return sub.visit_Name(node)
+    Deep().visit(fd)
+
+    def prune(stmts: List[ast.stmt]) -> None:
+        stmts[:] = [s_ for s_ in stmts if not any(s_ is d for d in drop)] or [ast.Pass()]
+        for s_ in stmts:
+            for fld in ("body", "orelse", "finalbody"):
+                b = getattr(s_, fld, None)
+                if isinstance(b, list) and b and isinstance(b[0], ast.stmt):
+                    prune(b)
+            for h in getattr(s_, "handlers", []) or []:
+                prune(h.body)
+    prune(fd.body)
+    ast.fix_missing_locations(fd)
+    log.append(f"{fd.name}: parameters of expanded helpers read under the caller's names ({', '.join(sorted(mapping))})")
+
+
 def simplify(tree: ast.Module) -> List[str]:
     """Behaviour-preserving rewrites applied after the expansions, so that the rules see one form:
     tuple assignments of tuples (and of a choice between two tuples) are split per component, `True if c else False` is c,
@@ -1181,6 +1317,7 @@ def simplify(tree: ast.Module) -> List[str]:
         for fd in [x for x in cls.body if isinstance(x, ast.FunctionDef)]:
             before = len(log)
             _split_tuple_choice(fd.body, log)
+            _bind_aliases(fd, log)
             alg = _Algebra()
             for s in fd.body:
                 alg.visit(s)
